@@ -925,3 +925,132 @@ def resumption_history_stream(ctx, J, thorough, only=None):
                 if mo != "resumes=%d" % (1 if probe_resumed else 0):
                     ctx.disagree("resumption-history", {"scenario": sname, "history": hist}, mo,
                                  {"resumed": resumed_flags, "server_session_resumable": server_marks})
+
+
+# ---------------------------------------------------------------------------------------------
+# keyed peer: after a completed handshake a peer that holds the session keys sends structurally degenerate but
+# correctly authenticated / encrypted records (only the IV, only padding, padding longer than the body, empty
+# plaintext, empty fragments of every content type, TLS 1.3 inner plaintext without content type, ...).
+# The reader must end in a TLS alert or a documented exception - never in a bare Python exception.
+KEYED_SCENARIOS = ["tls12-cbc-etm", "tls12-cbc-noetm", "tls11-rsa-3des", "tls11-cbc-noetm", "tls10-cbc-etm", "tls10-rsa-aes-noetm",
+                   "ssl3-rsa", "tls12-ecdhe-rsa", "tls12-ecdsa-chacha", "tls12-rc4", "tls13-x25519"]
+
+
+def keyed_extra(ws, ver, tls13, rng):
+    """degenerate records the C02 helper does not build: every content type with an empty / one byte fragment,
+    correctly protected, for the CBC and stream constructions (AEAD and TLS 1.3 are covered by craft_keyed)"""
+    import copy as _copy
+    enc, macc = ws.encContext, ws.macContext
+    if enc is None or enc.isAEAD or macc is None:
+        return
+    seq8 = ws.seqnum.to_bytes(8, "big")
+
+    def mac(t, data):
+        m = macc.copy()
+        m.update(seq8 + bytes([t]) + (bytes(ver) if tuple(ver) != (3, 0) else b"") + len(data).to_bytes(2, "big") + bytes(data))
+        return bytes(m.digest())
+
+    def encrypt(pt):
+        return bytes(_copy.deepcopy(enc).encrypt(bytearray(pt)))
+
+    def pad(d, bs):
+        n = bs - 1 - (len(d) % bs)
+        return d + bytes([n]) * (n + 1)
+    for t in (20, 21, 22, 23, 24, 99):
+        for frag in (b"", b"\x01"):
+            if enc.isBlockCipher:
+                bs = enc.block_size
+                iv = rng.randbytes(bs) if tuple(ver) >= (3, 2) else b""
+                if ws.encryptThenMAC:
+                    ct = encrypt(iv + pad(frag, bs))
+                    body = ct + mac(t, ct)
+                else:
+                    body = encrypt(iv + pad(frag + mac(t, frag), bs))
+            else:
+                body = encrypt(frag + mac(t, frag))
+            yield ("valid-type-%d-fragment-%d-bytes" % (t, len(frag)), (t, tuple(ver), body))
+    if enc.isBlockCipher and ws.encryptThenMAC:
+        bs = enc.block_size
+        # whole record = padding only, maximal padding, padding byte pointing before the start
+        for nm, pt in (("only-padding", bytes([bs - 1]) * bs), ("max-padding", bytes([255]) * 256),
+                       ("padding-points-before-start", rng.randbytes(bs - 1) + bytes([bs + 3]))):
+            iv = rng.randbytes(bs) if tuple(ver) >= (3, 2) else b""
+            ct = encrypt(iv + pt)
+            yield ("etm-%s-correct-mac" % nm, (23, tuple(ver), ct + mac(23, ct)))
+
+
+def keyed_peer_stream(ctx, J, thorough, only=None):
+    from harness import lab
+    from . import c08
+    from .c02 import craft_keyed, peer_write_state
+    scns = {s.name: s for s in c08.all_scenarios()}
+    rng = ctx.rng
+    names = KEYED_SCENARIOS if only is None else [only[0]]
+    for sname in names:
+        scn = scns.get(sname)
+        if scn is None:
+            continue
+        for victim in (("server", "client") if only is None else (only[1],)):
+            # one connection to enumerate the crafts, then a fresh connection per record (a failure closes it)
+            def established():
+                L = lab.Lab()
+                L.max_steps = 20000
+                scn.start(L)
+                L.run()
+                if L.client.state != "done" or L.server.state != "done":
+                    return None
+                c08.post_exchange(L)
+                for _ in range(3):
+                    if L.read(victim, max=16384)[0] != "ok":
+                        break
+                L.end(victim).state = "idle"
+                return L
+
+            def crafts(L):
+                ver = tuple(L.end(victim).conn.version)
+                tls13 = ver >= (3, 4)
+                ws = peer_write_state(L, victim)
+                limit = L.end(victim).conn._recordLayer.recv_record_limit
+                out = [(n, r) for (n, r, e) in craft_keyed(ws, ver, tls13, limit, rng)]
+                out += list(keyed_extra(ws, ver, tls13, rng))
+                return out
+            L0 = established()
+            if L0 is None:
+                ctx.count("keyed-baseline-failed:" + sname)
+                continue
+            try:
+                cnames = [n for n, r in crafts(L0)]
+            except Exception as e:       # a cipher object the helper cannot copy: not a finding about tlslite
+                ctx.count("keyed-craft-unavailable:%s:%s" % (sname, type(e).__name__))
+                continue
+            if only is not None:
+                cnames = [n for n in cnames if n == only[2]]
+            elif not thorough:
+                keep = [n for n in cnames if not n.startswith("valid-type-") or n.endswith("0-bytes")]
+                cnames = keep
+            for cname in cnames:
+                if ctx.out_of_time(0.75):
+                    return
+                L = established()
+                if L is None:
+                    break
+                rec_ = dict(crafts(L)).get(cname)
+                if rec_ is None:
+                    continue
+                t, v, body = rec_
+                rx = "s2c" if victim == "client" else "c2s"
+                with c08.Watchdog():
+                    L.link.inject(rx, c08.rec(t, body, ver=v))
+                    for _ in range(3):
+                        if L.read(victim, max=16384)[0] != "ok":
+                            break
+                vend = L.end(victim)
+                if vend.state == "stall":
+                    vend.state = "done"
+                replay = {"stage": "keyed-record", "scn": sname, "victim": victim, "craft": cname, "msg": "keyed-record",
+                          "cls": cname, "body_len": len(body)}
+                out = c08.judge(J, L, victim, "keyed peer record %s" % cname, replay)
+                ctx.case(key=("keyed", sname, victim, cname), nontrivial=True,
+                         sample={"scenario": sname, "victim": victim, "record": cname, "outcome": out["cls"]}
+                         if cname.startswith("etm-iv-only") else None)
+                ctx.count("keyed:" + out["cls"].split(":")[0])
